@@ -1045,12 +1045,14 @@ func (c *compiler) compileAll(tokens []*token) []instruction {
 	return res
 }
 
-// hasCall reports whether evaluating the expression may call a function
+// hasCall reports whether evaluating the expression may call a function or store a value (an assignment nested in an
+// operand): such an operand is evaluated once
 func hasCall(t *token) bool {
 	if t == nil {
 		return false
 	}
-	if t.Symbol == "call" {
+	switch t.Symbol {
+	case "call", "=", ":=", "|=", "^=", "&=", "<<=", ">>=", "+=", "-=", "*=", "/=", "%=", "++", "--":
 		return true
 	}
 	for _, tt := range t.Tokens {
